@@ -5,6 +5,35 @@ from .common import Mode1, judge
 INSTS = ["I1", "I2", "I3", "I4", "I5"]
 
 
+def reboot_while_answer_pending():
+    """the requester holds a subscription, asks, and shows reboot evidence while the answer is still waiting (request-response
+    delay, collection window): the answer is owed all the same"""
+    from .. import annenv, monpass
+    out = []
+    sub = {"ty": "sub", "svc": "s1", "eg": 1, "ctr": 0, "eps": ["e1"], "opts": [], "acc": True, "ttl": 16777215}
+    for v in "BDF":
+        tc = anngen.TIMINGS[v]
+        for find_mc in (False, True):
+            for k in (0, 1, 2, 3):
+                for j in (0, 2):
+                    for evid_mc in (False, True):
+                        t0 = 8
+                        sched = [{"t": 0, "j": 0, "op": "ann_start"},
+                                 {"t": t0 - 2, "j": 0, "op": "rx", "src": "a1", "mc": False, "sid": 7, "rb": True, "uc": True, "es": [dict(sub)]},
+                                 {"t": t0 - 2, "j": 0, "op": "rx", "src": "a1", "mc": True, "sid": 7, "rb": True, "uc": True, "es": []},
+                                 {"t": t0, "j": 0, "op": "rx", "src": "a1", "mc": find_mc, "sid": 8, "rb": True, "uc": True,
+                                  "es": [{"ty": "find", "svc": "f1x", "ttl": 3, "opts": []}]},
+                                 {"t": t0 + k, "j": j, "op": "rx", "src": "a1", "mc": evid_mc, "sid": 1, "rb": True, "uc": True,
+                                  "es": [] if evid_mc else [dict(sub)]}]
+                        rand = [0, 0, 0, 0] + [1] * 8
+                        ev, _ = annenv.run_schedule(sched, tc, ["I1", "I2"], ann0=["I1", "I2"], rand=list(rand))
+                        cfg = annenv.mon_cfg(tc, ["I1", "I2"], ["I1", "I2"])
+                        cfg["dsts"] = ["mc", "a1", "a2", "a3", "a4", "a5"]
+                        out.append({"cfg": cfg, "ev": monpass.add_adv(ev), "sched": sched, "variant": v, "ann0": ["I1", "I2"], "rand": rand,
+                                    "insts": ["I1", "I2"], "diag": {"variant": v, "family": "reboot evidence while the answer is pending"}})
+    return out
+
+
 def check(ctx):
     m1 = Mode1(ctx, "MC_Ann")
     m1.holds("C12_A", "C12_quick.cfg")
@@ -13,7 +42,9 @@ def check(ctx):
     m1.holds("C12_S (two instances of one service)", "C12_quick.cfg", {"C12_A": "C12_S", "C12_Inputs": "C12_SInputs"}, timeout=3000)
     m1.caught("SwD5", "C12_quick.cfg")
     traces = anngen.run(ctx.seed, ctx.pick(360, 6000), ctx.pick(8, 12), INSTS, list("ABCDEF"), tag="c12")
-    bad, ms = judge(ctx, "Mon_C12", traces, "find histories", anngen.payload)
+    # finds of requesters that also hold subscriptions and reboot now and then (answers must not get lost on the way)
+    traces2 = anngen.run(ctx.seed, ctx.pick(240, 3000), ctx.pick(8, 12), ["I1", "I2", "I4"], list("BDFB"), tag="c12s", with_sub=True, find_share=0.6)
+    bad, ms = judge(ctx, "Mon_C12", traces + traces2 + reboot_while_answer_pending(), "find histories", anngen.payload)
     sim = anngen.spec_to_code_ann(ctx, "Mon_C12", "C12_S", "C12_SInputs", "B", ["I1", "I4"], ["I1", "I4"], ctx.pick(20, 300))
     acc, total = anngen.conform_by_variant(ctx, traces, ctx.pick(100, 1000))
     cov = dict(states=m1.states, transitions=m1.trans, traces_validated_against_impl=acc, monitor_traces=len(traces),
